@@ -218,6 +218,23 @@ UNITS["pedersen_ctor"] = {
     "safety": {"*": ["C11", "C17"]},
 }
 
+# the forwarding impls of src/ristretto.rs (FixedBytesRepr, Decompressable, FromUniformBytes, Compressable for the dalek types)
+GLUE_SUBST = [("CompressedRistretto :: as_bytes (self )", "self . dalek_as_bytes ()"), ("CompressedRistretto :: decompress (self )", "self . dalek_decompress ()"),
+              ("RistrettoPoint :: from_uniform_bytes (bytes )", "RistrettoPoint :: dalek_from_uniform_bytes (bytes )"), ("RistrettoPoint :: compress (self )", "self . dalek_compress ()"),
+              ("Option < Self :: Decompressed >", "Option < RistrettoPoint >"), ("Self :: Compressed", "CompressedRistretto")]
+UNITS["ristretto_glue"] = {
+    "prelude": ["00_header.rs", "99_dalek.rs"],
+    "contracts": ["ristretto_glue.vc"],
+    "pieces": [
+        fns("src/ristretto.rs", "impl CompressedRistretto {", "CompressedRistretto", fns=["as_fixed_bytes", "from_fixed_bytes"], impl_filter="implFixedBytesReprforCompressedRistretto", opdesugar=False, subst=GLUE_SUBST, renames="enumerate"),
+        fns("src/ristretto.rs", "impl CompressedRistretto {", "CompressedRistretto", fns=["decompress"], impl_filter="implDecompressableforCompressedRistretto", opdesugar=False, subst=GLUE_SUBST, renames="enumerate"),
+        fns("src/ristretto.rs", "impl RistrettoPoint {", "RistrettoPoint", fns=["from_uniform_bytes"], impl_filter="implFromUniformBytesforRistrettoPoint", opdesugar=False, subst=GLUE_SUBST, renames="enumerate"),
+        fns("src/ristretto.rs", "impl RistrettoPoint {", "RistrettoPoint", fns=["compress"], impl_filter="implCompressableforRistrettoPoint", opdesugar=False, subst=GLUE_SUBST, renames="enumerate"),
+        raw("proof fn vx_canary_axioms_glue() ensures false { }\n"),
+    ],
+    "safety": {"*": ["C15", "C16"]},
+}
+
 # serde wrappers (C15: "the serde form accepts and produces exactly the same byte strings")
 UNITS["serde"] = {
     "prelude": PRELUDE_ALL + ["90_codec.rs", "97_serde.rs"],
